@@ -19,10 +19,10 @@ from checks import c12
 PID = "C13"
 RULE = ("configurations of (motion, series length 2..6, time stamps, per-frame renumbering, disappearing cell, b_matrix, adimensional, normalisation) within the deviation bound; "
         "every frame and every vertex checked in each; non-trivial = some vertex moves; classes = config signature")
-BOUND = {"quick": "deviation bound 2 on two tissues (every frame x every vertex in each state)", "thorough": "deviation bound 3 on four tissues"}
+BOUND = {"quick": "deviation bound 2 on two tissues (every frame x every vertex in each state; the right-hand side is read both from set_velocity_matrix and from what ForSys.solve_stress used)", "thorough": "deviation bound 3 on four tissues"}
 ASSUMPTIONS = ["the partner of a vertex is taken from the implementation's own correspondence (C12 judges the correspondence itself)",
                "comparison tolerance 1e-9 relative (velocities), 1e-4 absolute on the 4-decimal rounded public velocity matrices"]
-REQUIRED_TAGS = {"all": ["unequal_times", "renumbered", "disappearing", "velocity_mode", "static_mode", "adimensional", "normalisation", "last_frame", "no_partner", "id0_junction_renumbered"]}
+REQUIRED_TAGS = {"all": ["unequal_times", "renumbered", "disappearing", "velocity_mode", "static_mode", "adimensional", "normalisation", "last_frame", "no_partner", "id0_junction_renumbered", "rhs_through_solve_stress"]}
 
 TIMES = {"equal": lambda n: [float(i) for i in range(n)],
          "unequal": lambda n: [0.0, 1.0, 4.0, 4.5, 6.5, 10.0][:n],
@@ -206,6 +206,18 @@ class Velocities(ProductSystem):
                         if any(b[i] != 0 for i in range(len(b)) if i not in used):
                             viol.append({"what": "a row that belongs to no used junction has a non-zero right-hand side"})
             if viol:
+                break
+            # the same right-hand side through the user-facing call: ForSys.solve_stress must hand the series of THIS object to the
+            # solve (also at the last frame); what the solve used is left in the public attribute velocity_matrix (4 decimals)
+            _, ex = fsutil.call(s.solve_stress, when=t, **kw)
+            if ex is not None:
+                viol.append({"what": "solve_stress raised", "detail": {"frame": t, "kw": {k_: str(v_) for k_, v_ in kw.items()}, "exc": fsutil.exc_str(ex)}})
+                break
+            used_b = np.asarray(fm.velocity_matrix, float).ravel()
+            tags.append("rhs_through_solve_stress")
+            if used_b.shape != b.shape or np.abs(used_b - b).max(initial=0.0) > 0.51e-4 + 1e-9 * np.abs(b).max(initial=0.0):
+                viol.append({"what": "the right-hand side used by ForSys.solve_stress is not the junction velocities that set_velocity_matrix gives for this frame",
+                             "detail": {"frame": t, "last": bool(last), "used": [float(x) for x in used_b[:6]], "expected": [float(x) for x in b[:6]]}})
                 break
         if not viol and m != "rest" and all(v is not None for v in ts.mapping.values()):
             sv, ex = fsutil.call(s.get_system_velocity_per_frame)
